@@ -954,6 +954,15 @@ class _WorkflowAPI:
                         tuple[int, EventEnvelopeWithMetadata], item
                     )
                     payload = envelope.model_dump_json()
+                    # JSON leaves U+0085, U+2028 and U+2029 raw inside strings, but
+                    # line-oriented readers (httpx aiter_lines, the client of this
+                    # package) end a line there and tear the frame apart: write
+                    # them as \u escapes, which is the same JSON value.
+                    payload = (
+                        payload.replace("\u0085", "\\u0085")
+                        .replace("\u2028", "\\u2028")
+                        .replace("\u2029", "\\u2029")
+                    )
                     if sse:
                         yield f"id: {sequence}\ndata: {payload}\n\n"
                     else:
